@@ -136,7 +136,11 @@ impl<'a, T: Read + Seek> QueueReader<'a, T> {
                     self.reader
                         .read_exact(&mut self.buffer)
                         .read_err("Failed to read data packet buffers")?;
-                    self.byte_streams[i].append(&self.buffer);
+                    // Streams of records without any bits carry no values and are never consumed,
+                    // keeping them would let the buffer grow with every packet
+                    if self.pc.prototype[i].data_type.bit_size() != 0 {
+                        self.byte_streams[i].append(&self.buffer);
+                    }
                 }
 
                 // Without any record of non-zero bit size the number of points
